@@ -34,6 +34,7 @@ Definition expr_into_condition (e : expr) : cond := cond_add cond_all (MExpr e).
 Definition holder_add (h : holder) (addition : cond) : holder :=
   match h with
   | HEmpty => HCond addition
+  | HChain _ => h       (* the code panics ("Cannot mix `and_where`/`or_where` and `cond_where`"): the case language never mixes the two *)
   | HCond current =>
       match current with
       | Cond false false cms =>          (* current is a non-negated ALL *)
@@ -43,6 +44,14 @@ Definition holder_add (h : holder) (addition : cond) : holder :=
           end
       | _ => HCond (cond_add (cond_add cond_all (MCond current)) (MCond addition))
       end
+  end.
+
+(* ConditionHolder::add_and_or (and_or_where) *)
+Definition holder_add_chain (h : holder) (is_or : bool) (e : expr) : holder :=
+  match h with
+  | HEmpty => HChain [(is_or, e)]
+  | HChain ms => HChain (ms ++ [(is_or, e)])
+  | HCond _ => h        (* the code panics: never mixed *)
   end.
 
 Definition true_value : value := V TBool (Some (PBool true)).
@@ -66,5 +75,5 @@ Fixpoint to_simple_expr (c : cond) : expr :=
 End WithQ.
 
 Arguments unwrap_single {Q}. Arguments cond_any {Q}. Arguments cond_all {Q}. Arguments cond_add {Q}. Arguments cond_add_option {Q}.
-Arguments cond_not {Q}. Arguments expr_into_condition {Q}. Arguments holder_add {Q}.
+Arguments cond_not {Q}. Arguments expr_into_condition {Q}. Arguments holder_add {Q}. Arguments holder_add_chain {Q}.
 Arguments to_simple_expr {Q}. Arguments fold_binop {Q}.
